@@ -285,7 +285,6 @@ func runReq(t []string) string {
 			maxOver = d
 		}
 		hx.St.Inc(fmt.Sprintf("req.version.%02d", r.Version))
-		hx.St.Inc("req.batches." + bucket(r.NumBatches))
 		hx.St.Inc("req.fill." + fill(len(r.Bytes), int(limit)))
 	}
 	ncalls := 0
@@ -312,7 +311,7 @@ func runReq(t []string) string {
 	}
 	hx.St.Inc("op.req")
 	hx.St.Inc("op.req.pv." + map[bool]string{true: "unknown", false: "known"}[pv < 0])
-	hx.St.Inc("op.req.comp." + compS)
+	hx.St.Inc("op.req.comp." + compClass(compS))
 	hx.St.Inc("op.req.parts." + bucket(nparts))
 	hx.St.Inc("op.req.records." + bucket(nrec))
 	hx.St.Inc("op.req.nreq." + bucket(len(out.Reqs)))
@@ -323,6 +322,19 @@ func runReq(t []string) string {
 		hx.St.Inc("op.req.over-limit")
 	}
 	return sb.String()
+}
+
+func compClass(s string) string {
+	switch {
+	case s == "none":
+		return "none"
+	case strings.Contains(s, "+"):
+		return "preference"
+	case s == "gzip" || s == "snappy" || s == "lz4" || s == "zstd":
+		return s
+	default:
+		return "toy"
+	}
 }
 
 func bucket(n int) string {
